@@ -230,7 +230,7 @@ def run(prop, args):
     NCI = 22 if tier == "quick" else 48
     gridci = [(n, s_, d, c8, "dp:ci") for n in range(2, NCI + 1) for s_ in (1, 2) for d in (0, 1, 2)
               for c8 in ([2, 8, 0, 8], [4, 8, 16, 16], [12, 8, 16, 8], [8, 4, 16, 16], [8, 12, 4, 16], [8, 8, 4, 12], [8, 8, 16, 20], [16, 8, 12, 8], [6, 16, 8, 24])]
-    gridci += [(n, s_, d, c8, "dp:" + st_) for n in (3, 4, 7, 12, 19) for s_ in (1, 2) for d in (0, 2) for st_ in ("npf", "kw", "dflt")
+    gridci += [(n, s_, d, c8, "dp:" + st_) for n in (3, 4, 7, 12, 19) for s_ in (1, 2) for d in (0, 2) for st_ in ("npf", "kw", "kwr", "pkr", "dflt")
                for c8 in ([8, 8, 16, 16], [4, 8, 16, 16], [8, 12, 16, 16], [8, 8, 4, 16], [8, 8, 16, 12])]
     jobs += gridci
     LT = 100 if tier == "quick" else 260
